@@ -25,7 +25,7 @@ def pfc_caps(n, l, bs, memalloc):
     return {'IR2C_MAXBYTES': maxbytes, 'IR2C_MAXELEMS': max(cap, 2)}
 
 
-def pfc(name, prop, entry, n, l, bs, unwind=None, memalloc=None, **kw):
+def pfc(name, prop, entry, n, l, bs, unwind=None, memalloc=None, maxbytes=None, **kw):
     """PFC whole-kind obligation.  memalloc=None: the MEMALLOC hook is set so that the text buffer never has to
     grow (growth is decided by the dedicated C07 obligations, which pass memalloc explicitly)."""
     defs = {'NSTR': n, 'LMAX': l, 'BS': bs}
@@ -38,13 +38,14 @@ def pfc(name, prop, entry, n, l, bs, unwind=None, memalloc=None, **kw):
         memalloc = max(-(-(n * (l + 2) + 2 * l) // min(bss)), 2)
     caps = [pfc_caps(n, l, b, memalloc) for b in bss]
     cdefs = {k: max(c[k] for c in caps) for k in caps[0]}
+    if maxbytes: cdefs['IR2C_MAXBYTES'] = maxbytes
     cdefs['VS_CAP'] = defs['VS_BOUND']
     cdefs.update(kw.pop('cdefs', {}))
     kw.setdefault('timeout', 240)
     us = {'^(h_|_ZL)': (n + 2) * (l + 4), '_ZSt14__relocate': cdefs['IR2C_MAXELEMS'] + 1, '_ZNSo5write': cdefs['IR2C_MAXBYTES'] + 1, '_ZNSi4read': cdefs['IR2C_MAXBYTES'] + 1, 'verif_stream_equal': defs['VS_BOUND'] + 1}
     if grow:
         us['_Z10ReallocatePPhm'] = cdefs['IR2C_MAXBYTES'] + 1
-        us['_ZN19StringDictionaryPFCC2'] = n + 6          # main loop + the growth loop (they can share a header)
+        us['_ZN19StringDictionaryPFCC2'] = n + 3
     us.update(kw.pop('unwindset', {}))
     return O(name, prop, 'h_pfc.cpp', entry, PFC_TUS, defs=defs, libdefs={'LIBCSD_VERIF_MEMALLOC': memalloc}, cdefs=cdefs,
              unwind=unwind or max(n + 2, l + 3), unwindset=us,
@@ -238,6 +239,25 @@ def rpdac_family(prop, tag, entry):
     return obs
 
 
+BLOCKS_TUS = ['StringDictionary.cpp']
+
+
+def blocks_e1(name, prop, entry, n, l, tier=Q, timeout=900):
+    tot = n * (l + 1)
+    cdefs = {'IR2C_MAXBYTES': max(16, tot + 2), 'IR2C_MAXELEMS': 8, 'VS_CAP': 96}
+    return O(name, prop, 'h_blocks.cpp', entry, BLOCKS_TUS, defs={'NSTR': n, 'LMAX': l, 'VS_BOUND': 96}, cdefs=cdefs, unwind=max(n + 3, l + 4), tier=tier, timeout=timeout,
+             unwindset={'^(h_|_ZL)': (n + 2) * (l + 5), '_ZNSo5write': 33, '_ZNSi4read': 33, 'verif_stream_equal': 97},
+             bounds='HASHRPDACBlocks over stand-in blocks: %d strings of 1..%d bytes over 0x02..0xFE, every cut into consecutive non-empty blocks' % (n, l))
+
+
+def blocks_obs(prop, entries):
+    obs = []
+    for e in entries:
+        obs.append(blocks_e1('%s.blocks.%s.n2l2' % (prop.lower(), e), prop, 'h_blocks_' + e, 2, 2))
+        obs.append(blocks_e1('%s.blocks.%s.n3l2' % (prop.lower(), e), prop, 'h_blocks_' + e, 3, 2, tier=T, timeout=3600))
+    return obs
+
+
 def c01():
     obs = pfc_family('C01', 'pfc', 'h_pfc_c01', deep4=True)
     obs += pfc_family('C01', 'pfc.reload', 'h_pfc_saveload', quick_bs=(2,), quick_shapes=[[1, 2, 2]], sym_n2=False, timeout_q=600, thorough_extra=False)
@@ -276,7 +296,11 @@ def c07():
     for sh, bs, ma, tier in [([1, 1], 2, 2, Q), ([3], 2, 2, T), ([2], 2, 1, Q), ([1, 1, 1], 3, 2, T), ([2, 2], 2, 2, T), ([2, 2, 2], 2, 2, T), ([1, 2, 2], 2, 3, T), ([2, 1, 2], 2, 4, T), ([2, 2, 2], 3, 2, T),
                              ([2, 2, 2, 2], 2, 2, T), ([1, 1, 1], 2, 2, T), ([2, 2, 1], 2, 3, T), ([3, 3, 3], 2, 2, T), ([1, 2, 2], 3, 2, T)]:
         n = len(sh); l = max(sh) if max(sh) > 2 else 2
-        obs.append(pfc('c07.pfc.grow.len%s.bs%d.m%d' % (''.join(map(str, sh)), bs, ma), 'C07', 'h_pfc_c01', n, l, bs, memalloc=ma, defs={'LENV': lenv(sh)}, tier=tier,
+        # tight byte cap: the reservation after the growth steps this shape can need (checked by the cap assertion)
+        need = max(sum(x + 2 for x in sh[:i]) + 2 * sh[i] + 2 for i in range(len(sh)))
+        cap = ma * max(bs, 2)
+        while cap < need: cap *= 2
+        obs.append(pfc('c07.pfc.grow.len%s.bs%d.m%d' % (''.join(map(str, sh)), bs, ma), 'C07', 'h_pfc_c01', n, l, bs, memalloc=ma, maxbytes=max(cap, sum(x + 1 for x in sh)), defs={'LENV': lenv(sh)}, tier=tier,
                        timeout=900 if tier == Q else 3600))
     obs += pfc_family('C07', 'pfc.hist', 'h_pfc_c07hist', quick_bs=(2,), quick_shapes=[[1, 2, 2], [2, 2, 2]], sym_n2=False, timeout_q=900, thorough_extra=False, extra_defs={'HIST': 2})
     obs.append(unit('c07.reallocate', 'C07', 'h_reallocate', [], defs={'RLEN': 4}, cdefs={'IR2C_MAXBYTES': 16, 'IR2C_MAXELEMS': 8}, unwind=18, bounds='Reallocate(uchar**/int**) on 4 symbolic entries'))
@@ -429,7 +453,11 @@ def xr():
 
 
 # C09 (c09()) is not registered: the smallest instance ran out of memory after 1 h (DESIGN.md 3/C09)
-TABLE = {'XR': xr, 'X09': c09, 'C10': c10, 'C18': c18, 'C01': c01, 'C02': c02, 'C03': c03, 'C04': c04, 'C06': c06, 'C07': c07, 'C08': c08, 'C12': c12, 'C13': c13, 'C14': c14,
+def xb():
+    return blocks_obs('XB', ['queries', 'table', 'saveload'])
+
+
+TABLE = {'XB': xb, 'XR': xr, 'X09': c09, 'C10': c10, 'C18': c18, 'C01': c01, 'C02': c02, 'C03': c03, 'C04': c04, 'C06': c06, 'C07': c07, 'C08': c08, 'C12': c12, 'C13': c13, 'C14': c14,
          'C15': c15, 'C16': c16, 'C17': c17, 'C19': c19}
 
 
